@@ -86,6 +86,7 @@ InitState ==
    pipe |-> <<>>,
    io |-> [rlist |-> <<>>, wlist |-> <<>>, deadline |-> NodeCfg.wakeup, done |-> FALSE],
    e2e |-> 1000,
+   overflow |-> FALSE,                     \* the instance's MaxConn bound cut a dial short (such states are discarded)
    dialPlan |-> <<>>,                      \* outcomes the environment will give to the next connect() calls
    out |-> <<>>]
 
@@ -102,6 +103,10 @@ PeerOf(S, c) == LET k == S.conn[c] IN
 
 Eff(p, field, dflt) == IF p # "" /\ PeerCfg[p][field] # 0 THEN PeerCfg[p][field] ELSE dflt
 
+\* _peer_waiting_answer is keyed by the connection and (hop-by-hop, end-to-end); the pinned behaviour F09 keyed it
+\* by host identity and hop-by-hop identifier only
+PwKey(S, c) == IF "F09" \in Pinned THEN S.conn[c].hostId ELSE c
+PwId(m) == IF "F09" \in Pinned THEN m.hbh ELSE <<m.hbh, m.e2e>>
 PwIdx(S, h) == IF \E i \in 1..Len(S.peerWait) : S.peerWait[i].h = h
                THEN CHOOSE i \in 1..Len(S.peerWait) : S.peerWait[i].h = h ELSE 0
 SaIdx(S, oh) == IF \E i \in 1..Len(S.sentAns) : S.sentAns[i].oh = oh
@@ -119,9 +124,9 @@ RecordAnswer(S, c, m) ==
        IN [S1 EXCEPT !.sentAns[j].ids = cut, !.originWait = @ \ {r}]
 
 SendMessage(S, c, m) ==
-  LET i  == PwIdx(S, S.conn[c].hostId)
-      S1 == IF ~m.req /\ i # 0 /\ m.hbh \in S.peerWait[i].ids
-            THEN [S EXCEPT !.peerWait[i].ids = @ \ {m.hbh}] ELSE S
+  LET i  == PwIdx(S, PwKey(S, c))
+      S1 == IF ~m.req /\ i # 0 /\ PwId(m) \in S.peerWait[i].ids
+            THEN [S EXCEPT !.peerWait[i].ids = @ \ {PwId(m)}] ELSE S
       S2 == [S1 EXCEPT !.conn[c].writeQ = Append(@, m)]
   IN IF m.req THEN S2 ELSE RecordAnswer(S2, c, m)
 
@@ -159,8 +164,8 @@ RemovePeerConnection(S, c, reason) ==
                  IN IF others # <<>> THEN [S1 EXCEPT !.peer[p].conn = others[1]]   \* fall back on another live connection
                     ELSE [S1 EXCEPT !.peer[p].conn = 0, !.peer[p].lastDisc = S.now,
                                     !.peer[p].reason = IF @ = 0 THEN reason ELSE @]
-      i  == PwIdx(S2, S2.conn[c].hostId)
-      S3 == IF i = 0 THEN S2 ELSE [S2 EXCEPT !.peerWait = SelectSeq(@, LAMBDA r : r.h # S2.conn[c].hostId)]
+      i  == PwIdx(S2, PwKey(S2, c))
+      S3 == IF i = 0 THEN S2 ELSE [S2 EXCEPT !.peerWait = SelectSeq(@, LAMBDA r : r.h # PwKey(S2, c))]
   IN [S3 EXCEPT !.appReady = [a \in Apps |-> IF AnyPeerReady(S3, a) THEN S3.appReady[a] ELSE FALSE]]
 
 \* Node.close_connection_socket
@@ -248,12 +253,13 @@ PwAdd(S, h, id) ==
 \*   "answer" : generate_answer + send_answer at once
 \*   "raise"  : raises
 RouteAnswerTarget(S, m) ==      \* Node.route_answer: [ok, c, S]
-  LET hits == SelectSeq(S.peerWait, LAMBDA r : m.hbh \in r.ids) IN
+  LET hits == SelectSeq(S.peerWait, LAMBDA r : PwId(m) \in r.ids) IN
   IF hits = <<>> THEN [ok |-> FALSE, c |-> 0, S |-> S]
   ELSE LET h  == hits[1].h
            i  == PwIdx(S, h)
-           S1 == [S EXCEPT !.peerWait[i].ids = @ \ {m.hbh}]
-           cs == SelectSeq(S1.connections, LAMBDA x : S1.conn[x].hostId = h)
+           S1 == [S EXCEPT !.peerWait[i].ids = @ \ {PwId(m)}]
+           cs == IF "F09" \in Pinned THEN SelectSeq(S1.connections, LAMBDA x : S1.conn[x].hostId = h)
+                 ELSE SelectSeq(S1.connections, LAMBDA x : x = h)
        IN IF cs = <<>> THEN [ok |-> FALSE, c |-> 0, S |-> S1]
           ELSE IF S1.conn[cs[1]].st \notin READYSTATES THEN [ok |-> FALSE, c |-> 0, S |-> S1]
           ELSE [ok |-> TRUE, c |-> cs[1], S |-> S1]
@@ -269,7 +275,7 @@ ReceiveAppRequest(S, c, m) ==   \* -> [S, raised]
   ELSE IF m.realm \notin ServedRealms THEN [S |-> SendMessage(S, c, Answer(m, 3003)), raised |-> FALSE]
   ELSE LET a == PickApp(S, c, m) IN
        IF a = "" THEN [S |-> SendMessage(S, c, Answer(m, 3007)), raised |-> FALSE]
-       ELSE LET S1 == Emit(PwAdd(S, S.conn[c].hostId, m.hbh), [ev |-> "app_req", a |-> a, m |-> m])
+       ELSE LET S1 == Emit(PwAdd(S, PwKey(S, c), PwId(m)), [ev |-> "app_req", a |-> a, m |-> m])
             IN CASE AppCfg[a].handler = "hold"   -> [S |-> S1, raised |-> FALSE]
                  [] AppCfg[a].handler = "answer" -> [S |-> SubmitAnswer(S1, a, [Answer(m, 2001) EXCEPT !.app = m.app]), raised |-> FALSE]
                  [] AppCfg[a].handler = "raise"  -> [S |-> S1, raised |-> TRUE]
@@ -387,7 +393,8 @@ IoWrite(S, c) ==
            S1 == IF k.st # "CONNECTING" THEN S
                  ELSE IF k.soErr = 0
                  THEN LET p  == PeerOf(S, c)
-                          Sa == [S EXCEPT !.conn[c].st = "CONNECTED"]
+                          Sa == [S EXCEPT !.conn[c].st = "CONNECTED",
+                                          !.conn[c].lastRead = IF "F06c" \in Pinned THEN @ ELSE S.now]
                           Sb == IF p = "" THEN Sa ELSE [Sa EXCEPT !.peer[p].lastConnect = S.now]
                       IN SendNodeRequest(Sb, c, "CE", 257)
                  ELSE ConnClose(CloseConnectionSocket(S, c, R_FAILCONNECT), c, FALSE)
@@ -426,7 +433,8 @@ IoTimers(S, cs) == IF cs = <<>> THEN S
 \* Node._connect_to_peer: the environment decides the outcome of connect() when the dial happens
 \* (S.dialPlan: sequence of outcomes "ok" | "inprogress" | "fail"; default "inprogress")
 ConnectToPeer(S, p) ==
-  IF S.peer[p].conn # 0 \/ ~PeerCfg[p].addrs \/ S.nconn >= MaxConn THEN S
+  IF S.peer[p].conn # 0 \/ ~PeerCfg[p].addrs THEN S
+  ELSE IF S.nconn >= MaxConn THEN [S EXCEPT !.overflow = TRUE]       \* bound of the instance reached: not a behaviour of the code
   ELSE LET c   == S.nconn + 1
            res == IF S.dialPlan = <<>> THEN "inprogress" ELSE Head(S.dialPlan)
            S1  == [S EXCEPT !.nconn = c, !.dialPlan = IF @ = <<>> THEN @ ELSE Tail(@),
@@ -436,7 +444,8 @@ ConnectToPeer(S, p) ==
        IN IF ~S2.conn[c].added THEN S2          \* rejected (stopping): socket closed, connect() never called
           ELSE CASE res = "ok" -> SendNodeRequest([S3 EXCEPT !.conn[c].st = "CONNECTED"], c, "CE", 257)
                  [] res = "inprogress" -> [S3 EXCEPT !.conn[c].connecting = TRUE, !.pipe = Append(@, c)]
-                 [] res = "fail" -> RemovePeerConnection(S3, c, R_SOCKFAIL)
+                 [] res = "fail" -> IF "F19f" \in Pinned THEN RemovePeerConnection(S3, c, R_SOCKFAIL)
+                                    ELSE CloseConnectionSocket(S3, c, R_SOCKFAIL)
 
 \* Node._reconnect_peers (peers in configuration order: PeerOrder)
 ShouldReconnect(S, p) ==
